@@ -221,16 +221,42 @@ static void sb_vset(const lp_feasibility_set_t* s) {
   sb_str("}");
 }
 
+/* all coefficients in y vanish at the conjugate point (sqrt2, -sqrt2) of the assigned (sqrt2, sqrt2): the eliminant of the
+ * C code (and of the model) degenerates to 0 although the specialised polynomial has real roots */
+static lp_polynomial_t* conj_coeff(void) {
+  unsigned k = rnd(5);
+  switch (k) {
+  case 0: return P_add(P_var(0, 1), P_var(1, 1));
+  case 1: return P_add(P_mul(P_var(0, 1), P_var(1, 1)), P_const(2));
+  case 2: return P_sub(P_var(0, 2), P_const(2));
+  case 3: return P_scale(P_add(P_var(0, 1), P_var(1, 1)), rnd_in(1, 3));
+  default: return P_scale(P_add(P_mul(P_var(0, 1), P_var(1, 1)), P_const(2)), -1);
+  }
+}
+static lp_polynomial_t* degenerate_poly(void) {
+  int d = 1 + rnd(3);
+  lp_polynomial_t* p = P_mul(chance(70) ? P_add(P_var(0, 1), P_var(1, 1)) : P_add(P_mul(P_var(0, 1), P_var(1, 1)), P_const(2)), P_var(3, d));
+  for (int k = 0; k < d; ++k) if (chance(75)) p = P_add(p, P_mul(conj_coeff(), k ? P_var(3, k) : P_const(1)));
+  return p;
+}
+
 static void main_case(int mode) {
   int kind = 0;
   lp_polynomial_t* T = scenario(&kind);
   if (T) lp_polynomial_delete(T);
+  int degenerate = chance(12);
+  if (degenerate) {
+    static const long s2[] = { -2, 0, 1 };
+    for (int i = 0; i < nvals; ++i) lp_value_destruct(&vals[i]);
+    nvals = 3; int sgn = chance(50);
+    val_root(&vals[0], 2, s2, sgn); val_root(&vals[1], 2, s2, sgn); val_rat(&vals[2], rnd_in(-3, 3), 1);
+  }
   if (kind == 4 && chance(70)) {            /* cubic coordinates make the eliminations expensive: mostly replace by a rational */
     lp_value_destruct(&vals[0]); val_rat(&vals[0], rnd_in(-3, 3), 1 + rnd(2));
   }
   M = lp_assignment_new(hp_db);
   set_vals();
-  lp_polynomial_t* p = main_poly();
+  lp_polynomial_t* p = degenerate ? degenerate_poly() : main_poly();
   lp_polynomial_set_external(p);
   if (mode == 1) {
     size_t d = lp_polynomial_degree(p), n = 0;
